@@ -332,6 +332,18 @@ fn any_node(a: &mut Arena) -> *mut ListNode<u8> {
 }
 
 // ---------------- plain harnesses: assume pre, call the REAL function, assert post (quick tier) ----------------
+/// contract row `ListNode::new` of prelude/list.vrs: the node wraps exactly `data` (Deref / DerefMut reach it) and carries no links
+#[kani::proof]
+fn plain_node_new() {
+    let x: u8 = kani::any();
+    let mut n = ListNode::new(x);
+    assert!(n.prev.is_none() && n.next.is_none(), "[C01] a new list node is unlinked");
+    assert!(*n == x, "[C01] a new list node wraps exactly its data");
+    let y: u8 = kani::any();
+    *n = y;
+    assert!(*n == y && n.prev.is_none() && n.next.is_none(), "[C01] writing through the node changes its data only");
+}
+
 #[kani::proof]
 fn plain_remove() {
     let mut a = arena();
